@@ -63,6 +63,23 @@ def run(ctx, rep):
     rep.floor('C02.R6', 'bookkeeping cases', n, 90)
     RL = rep.rule('C02.R7', 'a rule stops offering targets because of a world / constant limit only in states where a quit flag is put on the branch (limit predicates and guarded target producers folded below / at / above the limit): an open branch cut short by a limit is never limit-free')
     common.limit_guards(ctx, rep, RL, 'C02.R7')
+    from .. import helpersfold
+    R8 = rep.rule('C02.R8', 'no starvation behind the fairness gate: rules that postpone a node while another was applied fewer times (NodeCount.isleast) are folded '
+                            'over every small state of applied (node, world) pairs -- whenever some node still has an accessible world it was not applied to, '
+                            'the rule offers a target; so an open finished branch is saturated for the box-type modal rules')
+    res, cons, nsites = helpersfold.fold_fair_gate(m, ctx.lgs)
+    rep.consult(*cons)
+    seen = set()
+    for ok, case, detail, where in res:
+        rep.instance(R8, ok=ok, nontrivial=case)
+        if not ok:
+            k = case.split(':')[0]
+            if k in seen:
+                continue
+            seen.add(k)
+            rep.finding(R8, f'C02.R8/{k}', where.split(' ')[0], k, f'{case}: {detail}')
+    rep.floor('C02.R8', 'gated rule producers', nsites, 1)
+    rep.floor('C02.R8', 'states', len(res), 30)
 
 
 def r3(ctx, rep):
